@@ -64,6 +64,8 @@ impl<F: RedisClientFactory> ReplicatorManager<F> {
         }
 
         let force = flags.force;
+        #[cfg(undermoon_verif)]
+        crate::common::verif::sched_point("replication::update::optimistic_check");
         if !force && self.updating_epoch.load(atomic::Ordering::SeqCst) >= epoch {
             return Err(ClusterMetaError::OldEpoch);
         }
@@ -72,7 +74,11 @@ impl<F: RedisClientFactory> ReplicatorManager<F> {
         // Set epoch first to let later requests fail fast.
         // We can't update the epoch inside the lock here.
         // Because when we get the info inside it, it may be partially updated and inconsistent.
+        #[cfg(undermoon_verif)]
+        crate::common::verif::sched_point("replication::update::optimistic_store");
         self.updating_epoch.store(epoch, atomic::Ordering::SeqCst);
+        #[cfg(undermoon_verif)]
+        crate::common::verif::sched_point("replication::update::after_optimistic_store");
         // After this, other threads might accidentally change `updating_epoch` to a lower epoch,
         // we will correct his later.
 
@@ -141,6 +147,8 @@ impl<F: RedisClientFactory> ReplicatorManager<F> {
         }
 
         {
+            #[cfg(undermoon_verif)]
+            crate::common::verif::sched_point("replication::update::write_lock");
             let mut replicators = self.replicators.write();
             if !force && epoch <= replicators.0 {
                 // We're fooled by the `updating_epoch`, update it.
